@@ -16,8 +16,8 @@ LEVEL_TEXT = ("Exploration: every generated case drives two fresh instances thro
               "are enumerated exhaustively on a fixed input pool.")
 RULE = ("case = (user numbers, current number, custom/default file names, no-database flag, 1-3 run steps each with its own switch vector "
         "{output,log,dump,error} x {file,string} + ErrorOn + per-number selected-output file switch + common selected-output string switch, an alternative "
-        "vector for the second instance, a call method and a generated 1-3 simulation input: speciation/reaction/equilibrium phases, unknown-element warnings, "
-        "TITLE, KNOBS -logfile, PRINT -echo_input/-selected_output/-headings/-warnings/-user_print, USER_PRINT, SELECTED_OUTPUT/USER_PUNCH blocks, DUMP with explicit "
+        "vector for the second instance, a call method and a generated 1-3 simulation input: speciation/reaction/equilibrium phases (solution numbers 0-3), unknown-element warnings, "
+        "TITLE, KNOBS -logfile, PRINT -echo_input/-selected_output/-headings/-warnings/-user_print/-dump, USER_PRINT, SELECTED_OUTPUT/USER_PUNCH blocks, DUMP with explicit "
         "-append true|false, optional -file for DUMP and SELECTED_OUTPUT, one optional planned error of 6 kinds (parse, tidy, MIX, non-convergence, BASIC at punch "
         "time, no database); optional LoadDatabase(ok|missing file|bad string) steps between runs).  Non-trivial = in some call a stream has both sinks on and "
         "non-empty content, or the switch vector changes between two consecutive run steps; distinct by SHA-256 of the case.  Exhaustive leg: all 64 vectors "
